@@ -532,5 +532,112 @@ Section Gen.
           * cbn. apply app_nil_r.
           * cbn [length]. lia.
     Qed.
+
+    (* one request seen as a step on what remains to be delivered (used for the scan over several partitions,
+       where the page size changes from request to request) *)
+    Definition remaining (c : bytes) : list bytes := filter inT (stream (wrap c)).
+
+    Lemma cut_step_common c (post : list bytes -> page) :
+      (forall pg x, last_opt pg = Some x -> inT x = true -> length pg = n -> post pg = (pg, rk x)) ->
+      (forall pg x, last_opt pg = Some x -> inT x = false -> post pg = (cut pg, [])) ->
+      (post [] = ([], [])) ->
+      (* the page is the table's whole rest, shorter than n: either the empty cursor, or the last key *)
+      (forall pg x, last_opt pg = Some x -> inT x = true -> (length pg < n)%nat ->
+                    post pg = (pg, []) \/ post pg = (pg, rk x)) ->
+      exists items next rem',
+        post (firstn n (stream (wrap c))) = (items, next) /\
+        remaining c = items ++ rem' /\
+        (next = [] -> rem' = []) /\
+        (next <> [] -> items <> [] /\ rem' = remaining next).
+    Proof.
+      intros Hfull Hout Hnil Hshort. unfold remaining.
+      destruct (stream_shape c) as [A [B [HS [HA HB]]]].
+      rewrite HS. rewrite (filter_shape A B HA HB).
+      destruct (last_opt (firstn n (A ++ B))) as [x|] eqn:Hl.
+      2:{ assert (A ++ B = []) as Hnil2.
+        { destruct (A ++ B) eqn:E; [reflexivity|]. exfalso.
+          destruct (last_opt_some (firstn n (b :: l))) as [y Hy]; [apply firstn_nonempty; [exact n_pos|discriminate]|].
+          congruence. }
+        apply app_eq_nil in Hnil2. destruct Hnil2 as [-> ->]. cbn [app]. rewrite firstn_nil, Hnil.
+        exists [], [], []. split; [reflexivity|]. split; [now rewrite ?app_nil_r|]. split; [reflexivity|intro Hne; congruence]. }
+      destruct (Nat.le_gt_cases n (length A)) as [Hn|Hn].
+      - assert (firstn n (A ++ B) = firstn n A) as Hpg.
+        { rewrite firstn_app. replace (n - length A)%nat with 0%nat by lia. cbn [firstn]. apply app_nil_r. }
+        rewrite Hpg in *.
+        assert (In x A) as HxA.
+        { apply last_opt_in in Hl. rewrite <- (firstn_skipn n A). apply in_or_app. now left. }
+        assert (inT x = true) as HTx by (rewrite Forall_forall in HA; now apply HA).
+        assert (In x NL) as HxNL.
+        { assert (In x (stream (wrap c))) as H by (rewrite HS; apply in_or_app; now left).
+          now apply stream_in in H. }
+        pose proof (rk_nonempty x HxNL HTx) as Hrk.
+        assert (stream (wrap (rk x)) = skipn n (A ++ B)) as Hchain.
+        { rewrite wrap_rk by exact HTx. rewrite <- HS. apply stream_chain.
+          - rewrite HS, firstn_app. replace (n - length A)%nat with 0%nat by lia.
+            cbn [firstn]. rewrite app_nil_r. exact Hl.
+          - rewrite HS, app_length. lia. }
+        assert (filter inT (stream (wrap (rk x))) = skipn n A) as Hrest.
+        { rewrite Hchain, skipn_app. replace (n - length A)%nat with 0%nat by lia. cbn [skipn].
+          apply filter_shape; [|exact HB]. rewrite <- (firstn_skipn n A) in HA.
+          apply Forall_app in HA. tauto. }
+        rewrite (Hfull _ x Hl HTx) by (rewrite firstn_length; lia).
+        exists (firstn n A), (rk x), (skipn n A). split; [reflexivity|]. split; [symmetry; apply firstn_skipn|].
+        split; [congruence|]. intros _. split; [|now rewrite Hrest].
+        apply firstn_nonempty; [exact n_pos|]. destruct A; [destruct HxA|discriminate].
+      - assert (firstn n (A ++ B) = A ++ firstn (n - length A) B) as Hpg.
+        { rewrite firstn_app. now rewrite (firstn_all2 A) by lia. }
+        rewrite Hpg in *.
+        destruct (firstn (n - length A) B) as [|b B'] eqn:EB.
+        + assert (B = []) as ->.
+          { destruct B as [|b0 B0]; [reflexivity|]. destruct (n - length A)%nat eqn:En; [lia|discriminate]. }
+          rewrite app_nil_r in *.
+          assert (In x A) as HxA by (now apply last_opt_in in Hl).
+          assert (inT x = true) as HTx by (rewrite Forall_forall in HA; now apply HA).
+          assert (In x NL) as HxNL.
+          { assert (In x (stream (wrap c))) as H by (rewrite HS; exact HxA). now apply stream_in in H. }
+          pose proof (rk_nonempty x HxNL HTx) as Hrk.
+          assert (stream (wrap (rk x)) = []) as Hchain.
+          { rewrite wrap_rk by exact HTx.
+            rewrite (stream_chain (wrap c) (length A) x); [rewrite HS; apply skipn_all|rewrite HS, firstn_all; exact Hl|rewrite HS; lia]. }
+          destruct (Hshort A x Hl HTx Hn) as [E|E]; rewrite E.
+          * exists A, [], []. split; [reflexivity|]. split; [now rewrite ?app_nil_r|]. split; [reflexivity|intro Hne; congruence].
+          * exists A, (rk x), []. split; [reflexivity|]. split; [now rewrite app_nil_r|]. split; [reflexivity|].
+            intros _. split; [destruct A; [destruct HxA|discriminate]|]. now rewrite Hchain.
+        + assert (Forall (fun x => inT x = false) (b :: B')) as HB'.
+          { rewrite <- EB. rewrite <- (firstn_skipn (n - length A) B) in HB. apply Forall_app in HB. tauto. }
+          rewrite last_opt_app in Hl by discriminate.
+          assert (inT x = false) as HTx.
+          { apply last_opt_in in Hl. rewrite Forall_forall in HB'. now apply HB'. }
+          rewrite (Hout (A ++ b :: B') x); [|rewrite last_opt_app by discriminate; exact Hl|exact HTx].
+          rewrite (cut_shape A (b :: B') HA HB').
+          exists A, [], []. split; [reflexivity|]. split; [now rewrite ?app_nil_r|]. split; [reflexivity|intro Hne; congruence].
+    Qed.
+
+    Lemma cut_step c : exists items next rem',
+      node_post (firstn n (stream (wrap c))) = (items, next) /\
+      remaining c = items ++ rem' /\
+      (next = [] -> rem' = []) /\
+      (next <> [] -> items <> [] /\ rem' = remaining next).
+    Proof.
+      apply (cut_step_common c node_post); unfold node_post.
+      - intros pg x Hl HT Hlen. rewrite Hl, HT, Hlen, Nat.ltb_irrefl. reflexivity.
+      - intros pg x Hl HT. now rewrite Hl, HT.
+      - reflexivity.
+      - intros pg x Hl HT Hlen. left. rewrite Hl, HT.
+        now replace (length pg <? n)%nat with true by (symmetry; apply Nat.ltb_lt; exact Hlen).
+    Qed.
+
+    Lemma cut_step0 c : exists items next rem',
+      node_post0 (firstn n (stream (wrap c))) = (items, next) /\
+      remaining c = items ++ rem' /\
+      (next = [] -> rem' = []) /\
+      (next <> [] -> items <> [] /\ rem' = remaining next).
+    Proof.
+      apply (cut_step_common c node_post0); unfold node_post0.
+      - intros pg x Hl HT _. now rewrite Hl, HT.
+      - intros pg x Hl HT. now rewrite Hl, HT.
+      - reflexivity.
+      - intros pg x Hl HT _. right. now rewrite Hl, HT.
+    Qed.
   End Cut.
 End Gen.
